@@ -24,6 +24,7 @@ type SpecEnv struct {
 	fr          *Frame // locals for loop invariants
 	loop        *Loop
 	inOld       bool
+	topFr       *Frame // frame of the function under verification (posts may read its locals through local(x))
 	pkg         *types.Package
 	allocBefore *Term
 	paramsFirst bool // ensures: parameter names mean entry values
@@ -406,6 +407,36 @@ func (env *SpecEnv) index(n *EIndex) SVal {
 
 func (env *SpecEnv) call(n *ECall) SVal {
 	switch n.Fn {
+	case "entry":
+		// entry(e): the value e had when the loop of this invariant was entered (locals and heap)
+		if env.loop == nil {
+			unsupp("entry(e) outside a loop invariant")
+		}
+		snap := env.post.loopEntry[env.loop]
+		if snap == nil {
+			snap = env.post // at loop entry itself
+		}
+		sub := *env
+		sub.post = snap
+		sub.inOld = false
+		return sub.eval(n.Args[0])
+	case "local":
+		// local(x): the value of the function's local variable x at the point the clause is evaluated (for posts: at the return)
+		id, ok := n.Args[0].(*EIdent)
+		lf := env.fr
+		if lf == nil {
+			lf = env.topFr
+		}
+		if !ok || lf == nil {
+			unsupp("local(name) needs a local variable name and a frame")
+		}
+		if c, ok := lf.named[id.Name]; ok {
+			if v, live := env.st().cells[c]; live {
+				return SVal{V: v, T: lf.namedT[id.Name]}
+			}
+			unsupp("local variable %s is not live here", id.Name)
+		}
+		unsupp("no local variable %s", id.Name)
 	case "old":
 		saved := env.inOld
 		env.inOld = true
